@@ -156,7 +156,7 @@ def r1(ctx, f):
     pm_ = find_factory(ctx.prog, f)
     flag_ = pm_.params[2] if pm_ is not None and len(pm_.params) > 2 else 'asynchronous'
     kws_ = b['kws']
-    okv = b['std_args'] and ((list(kws_.values()) == ['True']) if b['asyn'] else (list(kws_.values()) in ([], ['False']) and b['sync']))
+    okv = b['std_args'] and (b['asyn'] or b['sync']) and len(kws_) <= 1      # the value of the form flag is judged per table in forms()
     nm = 'async' if b['asyn'] else 'sync' if b['sync'] else 'other'
     kinds[nm] = ok_it and okv
     ctx.ob('C20.R1', f, 'proxy table %s' % nm, ok_it and okv and (b['asyn'] or b['sync']),
@@ -183,18 +183,58 @@ def r1(ctx, f):
   ctx.ob('C20.R1', f, 'proxy class = type(name, (_ProxyBase, Iface), both tables)', ok, 'proxy class construction changed', why)
   pops = [c for c in walk_no_nested(f.node) if isinstance(c, ast.Call) and call_attr(c) == 'pop']
   ctx.ob('C20.R1', f, "only '__init__' is removed from the tables", all(U(c.args[0]) == "'__init__'" for c in pops), 'removed: %s' % [U(c) for c in pops], why, nontrivial=False)
-  pm = find_factory(ctx.prog, f)
-  if pm is None:
-    raise AnalysisError('ProxyMethod not found')
-  inner = list(pm.nested.values())
-  if len(inner) != 1:
-    raise AnalysisError('ProxyMethod inner function not found')
-  inner = inner[0]
-  flag = pm.params[2] if len(pm.params) > 2 else None
-  rets = [n for n in walk_no_nested(inner.node) if isinstance(n, ast.Return)]
-  ok = bool(flag)
-  seen = set()
-  if flag:
+  forms(ctx, f, builders, why)
+
+
+def _flag_param(fn, wrapper):
+  allp = [a.arg for a in fn.node.args.posonlyargs + fn.node.args.args + fn.node.args.kwonlyargs]
+  used = set(x.id for x in ast.walk(wrapper.node) if isinstance(x, ast.Name))
+  return allp[2] if len(allp) > 2 and allp[2] in used else next((a for a in allp[2:] if a in used), None)
+
+
+def _flag_default(fn, flag):
+  a = fn.node.args
+  pos = a.posonlyargs + a.args
+  d = dict(zip([x.arg for x in pos[len(pos) - len(a.defaults):]], a.defaults)) if a.defaults else {}
+  d.update(dict((k.arg, v) for k, v in zip(a.kwonlyargs, a.kw_defaults) if v is not None))
+  return d.get(flag)
+
+
+def forms(ctx, f, builders, why):
+  """Per proxy table: the factory its values come from, the wrapper that factory returns, and what the wrapper returns for the form of that table
+  (blocking: the result's get(); _async: the pending result).  One factory with a form flag, or one factory per form."""
+  prog = ctx.prog
+  whyf = 'the blocking form returns the value or raises; the _async form must not block'
+  done = {}
+  seen_forms = set()
+  for b in builders:
+    form = 'async' if b['asyn'] else 'sync' if b['sync'] else None
+    if form is None:
+      continue
+    pm = resolve_local_callable(prog, f, b['factory']) or f.nested.get('ProxyMethod')
+    if pm is None:
+      raise AnalysisError('ProxyMethod not found')
+    inner = [g for g in pm.nested.values() if any(isinstance(c, ast.Call) and call_attr(c) == 'DispatchMethodCall' for c in ast.walk(g.node))] or list(pm.nested.values())
+    if len(inner) != 1:
+      raise AnalysisError('ProxyMethod inner function not found')
+    inner = inner[0]
+    flag = _flag_param(pm, inner)
+    want_async = form == 'async'
+    # the value of the form flag for this table
+    val = None
+    if flag:
+      src = b['kws'].get(flag)
+      if src is None:
+        dflt = _flag_default(pm, flag)
+        src = U(dflt) if dflt is not None else None
+      val = True if src == 'True' else False if src == 'False' else None
+      ctx.ob('C20.R1', f, 'the %s table selects its form explicitly' % form, val is (True if want_async else False),
+             '%s table calls the factory with %s=%s' % (form, flag, src), why)
+      if val is None:
+        continue
+    rets = [n for n in walk_no_nested(inner.node) if isinstance(n, ast.Return)]
+    ok = True
+    n_paths = 0
     for ev, ex in enum_paths(ctx, inner):
       if ex[0] != 'ret':
         continue
@@ -204,43 +244,64 @@ def r1(ctx, f):
         if e.kind == 'stmt' and isinstance(e.node, ast.Assign) and isinstance(e.node.value, ast.Call) and call_attr(e.node.value) == 'DispatchMethodCall':
           res = U(e.node.targets[0])
       facts = FACTS(ev)
-      truths = [t for t in (True, False) if (flag, t) in facts]
+      if flag and (flag, not val) in facts:
+        continue          # the other form's path
       v = r.value
-      cases = []
-      if isinstance(v, ast.IfExp) and not truths:
+      if isinstance(v, ast.IfExp) and flag:
         t = U(v.test).replace(' ', '')
         if t == flag:
-          cases = [(True, v.body), (False, v.orelse)]
+          v = v.body if val else v.orelse
         elif t == 'not' + flag:
-          cases = [(False, v.body), (True, v.orelse)]
-      elif len(truths) == 1 and v is not None:
-        cases = [(truths[0], v)]
-      if not cases or res is None:
+          v = v.orelse if val else v.body
+      if isinstance(v, ast.Call) and call_attr(v) == 'DispatchMethodCall' and res is None:
+        res, got = '<result>', '<result>'
+      else:
+        got = U(v).replace(' ', '') if v is not None else None
+      n_paths += 1
+      if res is None or got != (res if want_async else '%s.get()' % res):
         ok = False
-      for t, expr in cases:
-        seen.add(t)
-        got = U(expr).replace(' ', '')
-        if got != (res if t else '%s.get()' % res):
-          ok = False
-    ok = ok and seen == {True, False}
-  ctx.ob('C20.R1', inner, 'async form returns the pending result, blocking form its get()', ok, 'return is %s' % (U(rets[0]) if rets else None),
-         'the blocking form returns the value or raises; the _async form must not block')
-  # functools.wraps copies orig_method.__dict__, and abc.abstractmethod marks a method by __isabstractmethod__ = True in it:
-  # the generated wrapper of an abstract interface method would itself be abstract and the proxy class could not be instantiated
-  wr = [d_ for d_ in inner.node.decorator_list if isinstance(d_, ast.Call) and (dotted(d_.func) or '').split('.')[-1] == 'wraps']
-  concrete = True
-  if wr:
-    upd = [k for k in wr[0].keywords if k.arg == 'updated']
-    no_dict = bool(upd) and U(upd[0].value).replace(' ', '') in ('()', '[]')
-    reset = [st for st in walk_no_nested(pm.node) if isinstance(st, ast.Assign) and U(st.targets[0]) == '%s.__isabstractmethod__' % inner.name and U(st.value) == 'False']
-    concrete = no_dict or bool(reset)
-  ctx.ob('C20.R1', pm, 'the generated method is concrete even when the interface method is abstract', concrete,
-         'functools.wraps copies __isabstractmethod__ from an @abstractmethod interface method and nothing resets it: the proxy of an abc interface cannot be instantiated',
-         'for every interface class the generated client exposes each public method; interfaces are commonly written with abc.abstractmethod')
-  d = pm.node.args.defaults
-  ctx.ob('C20.R1', pm, 'ProxyMethod defaults to the blocking form', len(d) == 0 or (len(d) == 1 and U(d[0]) == "False"), 'default is %s' % [U(x) for x in d], why, nontrivial=False)
-  outer_ret = [n for n in walk_no_nested(pm.node) if isinstance(n, ast.Return)]
-  ctx.ob('C20.R1', pm, 'ProxyMethod returns the wrapper', len(outer_ret) == 1 and U(outer_ret[0].value) == inner.name, 'ProxyMethod returns %s' % [U(r) for r in outer_ret], why, nontrivial=False)
+    seen_forms.add(form)
+    ctx.ob('C20.R1', inner, 'async form returns the pending result, blocking form its get()', ok and n_paths >= 1,
+           '%s form: return is %s' % (form, U(rets[0]) if rets else None), whyf)
+    if id(pm.node) in done:
+      continue
+    done[id(pm.node)] = True
+    # functools.wraps copies orig_method.__dict__, and abc.abstractmethod marks a method by __isabstractmethod__ = True in it:
+    # the generated wrapper of an abstract interface method would itself be abstract and the proxy class could not be instantiated
+    outer_ret = [n for n in walk_no_nested(pm.node) if isinstance(n, ast.Return)]
+    helper = None
+    ret_ok = len(outer_ret) == 1 and U(outer_ret[0].value) == inner.name
+    if not ret_ok and len(outer_ret) == 1 and isinstance(outer_ret[0].value, ast.Call):
+      c = outer_ret[0].value
+      idx = [k for k, a in enumerate(c.args) if U(a) == inner.name]
+      helper = resolve_local_callable(prog, f, c.func)
+      if helper is not None and len(idx) == 1 and idx[0] < len(helper.params):
+        hp = helper.params[idx[0]]
+        hrets = [n for n in walk_no_nested(helper.node) if isinstance(n, ast.Return)]
+        rebinds = [st for st in walk_no_nested(helper.node) if isinstance(st, ast.Assign) and U(st.targets[0]) == hp]
+        # the helper hands the function back, at most re-wrapped by functools.wraps(orig)(fn) (which returns fn itself)
+        ident = all(isinstance(st.value, ast.Call) and isinstance(st.value.func, ast.Call) and (dotted(st.value.func.func) or '').split('.')[-1] == 'wraps'
+                    and [U(a) for a in st.value.args] == [hp] for st in rebinds)
+        ret_ok = len(hrets) == 1 and U(hrets[0].value) == hp and ident
+    ctx.ob('C20.R1', pm, 'ProxyMethod returns the wrapper', ret_ok, 'ProxyMethod returns %s' % [U(r) for r in outer_ret], why, nontrivial=False)
+    wr = [d_ for d_ in inner.node.decorator_list if isinstance(d_, ast.Call) and (dotted(d_.func) or '').split('.')[-1] == 'wraps']
+    scope, target = pm, inner.name
+    if not wr and helper is not None:
+      wr = [c_.func for c_ in ast.walk(helper.node) if isinstance(c_, ast.Call) and isinstance(c_.func, ast.Call) and (dotted(c_.func.func) or '').split('.')[-1] == 'wraps']
+      scope, target = helper, hp
+    concrete = True
+    if wr:
+      upd = [k for k in wr[0].keywords if k.arg == 'updated']
+      no_dict = bool(upd) and U(upd[0].value).replace(' ', '') in ('()', '[]')
+      reset = [st for st in walk_no_nested(scope.node) if isinstance(st, ast.Assign) and U(st.targets[0]) == '%s.__isabstractmethod__' % target and U(st.value) == 'False']
+      concrete = no_dict or bool(reset)
+    ctx.ob('C20.R1', pm, 'the generated method is concrete even when the interface method is abstract', concrete,
+           'functools.wraps copies __isabstractmethod__ from an @abstractmethod interface method and nothing resets it: the proxy of an abc interface cannot be instantiated',
+           'for every interface class the generated client exposes each public method; interfaces are commonly written with abc.abstractmethod')
+    if flag:
+      dflt = _flag_default(pm, flag)
+      ctx.ob('C20.R1', pm, 'ProxyMethod defaults to the blocking form', dflt is None or U(dflt) == 'False', 'default is %s' % (U(dflt) if dflt is not None else None), why, nontrivial=False)
+  ctx.ob('C20.R1', f, 'a wrapper is generated for the blocking and for the _async form', seen_forms == {'sync', 'async'}, 'forms with a wrapper: %s' % sorted(seen_forms), why)
 
 
 def late_binding(ctx, f):
